@@ -706,7 +706,8 @@ def _state_eq(model_st, impl_np, mode, tol=1e-9):
 def _prob_eq(fr, fl, exact):
     if exact:
         return float(fr) == fl       # basis state, no SNOT: every probability is exactly 0.0 or 1.0
-    return abs(float(fr) - fl) <= 1e-9
+    # (relative for small probabilities: a record of probability 2^-28 must not pass as 0)
+    return abs(float(fr) - fl) <= 1e-9 * max(float(fr), 1e-3)
 
 
 def compare(case, model, impl):
